@@ -7,7 +7,9 @@ EXTENDS Naturals, Sequences, FiniteSets, TLC, Json, IOUtils, TLCExt, SequencesEx
 Log == ndJsonDeserialize(IOEnv.TRACE_FILE)
 VARIABLES l, snap, memo, out
 Has(f, k) == k \in DOMAIN f
-Key(e) == IF Has(e, "o2") THEN <<snap[ToString(e.o)], e.kop, snap[ToString(e.o2)]>> ELSE <<snap[ToString(e.o)], e.kop>>
+\* the class of the receiver belongs to the key: a DFA and an epsilon-NFA with the same abstract value answer to_dict()
+\* in different shapes (one target state / a set of target states)
+Key(e) == IF Has(e, "o2") THEN <<e.otype, snap[ToString(e.o)], e.kop, snap[ToString(e.o2)]>> ELSE <<e.otype, snap[ToString(e.o)], e.kop>>
 Judge(e) ==
   IF e.k = "init" THEN {}
   ELSE
